@@ -9,7 +9,7 @@ import (
 func init() {
 	rule := "forced schedules on one real client.Client (harness-owned conn, gated codec, client.send.enter hook): 1..4 calls of kinds {Go, blocking Call, one-way Go}, " +
 		"events {register, encode failure, write failure/success, cancel, response frames (normal / error / undecodable / heartbeat-flagged / duplicate / unknown seq), " +
-		"server pushes with colliding seq, peer-close (reader termination), Close} in random enabled orders; each schedule is executed step by step on the implementation " +
+		"server pushes with colliding seq, peer-close (reader termination), Close, and a fresh call entering send() while a teardown (peer-close or Close) is parked inside the ClientConnectionClose plugin} in random enabled orders; each schedule is executed step by step on the implementation " +
 		"and replayed on the Lean multiplexer model; observables: per call number of Done signals and final outcome (or the blocking caller's return), " +
 		"push channel contents in order, IsShutdown; every case a specification case; non-trivial = schedule with at least one frame or fault; distinct = distinct schedule"
 	register("c03", "C03 focus (response routing, pushes, permutations): "+rule, func(o *Out, r *rand.Rand) { runMux(o, r, "c03") })
@@ -49,6 +49,9 @@ func runMux(o *Out, r *rand.Rand, focus string) {
 		{"GO", "r0 r1 w1 w0 f:0:-:1"},
 		{"NNN", "r0 r1 r2 w0 w1 w2 f:1:-:11 f:0:-:12 f:2:-:13 f:7:-:14 f:1:qo:15"}, // replies must survive later frames
 		{"GG", "r0 r1 w0 w1 f:0:E:21 f:1:E:22 f:5:E:23"},
+		{"GG", "r0 w0 H1"},    // a call entering send() while the reader winds the connection up
+		{"GB", "r0 w0 K1"},    // … or while Close is in progress
+		{"BGG", "r1 w1 H0 r2"},
 	}
 	for _, c := range corpus {
 		muxCase(o, c[0], strings.Fields(c[1]))
@@ -69,7 +72,7 @@ func muxCase(o *Out, kinds string, evs []string) {
 	}
 	nontrivial := false
 	for _, e := range evs {
-		if e == "T" || e == "C" || e[0] == 'f' || e[0] == 'e' || e[0] == 'x' || e[0] == 'c' {
+		if e == "T" || e == "C" || e[0] == 'H' || e[0] == 'K' || e[0] == 'f' || e[0] == 'e' || e[0] == 'x' || e[0] == 'c' {
 			nontrivial = true
 		}
 		o.Count("ev." + e[:1])
